@@ -18,6 +18,8 @@ func TestVerif(t *testing.T) {
 			"full = 182 entries = kinds {reg, dir, symlink, hardlink} x names {a, b, a/c, ../x, ../../x, absolute-outside, (the title directory itself)} x (links) targets {., .., a, b, a/.., b/.., l/.., b/evil, ../x, victim, absolute-outside, absolute-inside}; " +
 			"core = 70 entries = kinds x names {a, b, a/c, ../../x, (title dir)} x targets {., .., b, l/.., b/evil, victim}; mini = 30 entries = kinds x names {a, b, (title dir)} x targets {., l/.., b/evil, victim}; " +
 			"core, rootlinks and chain additionally contain the directory entries a/x/y and b/x/y (two missing levels below a possible link). rootlinks = 17 entries (symlink x {a,b,l} x {., .., a/.., l/.., b/evil}, reg a, reg b) with title '.'; chain = 17 entries (symlink x {a,b,l,m} x {., l/.., m/.., b/evil}, reg a) with title 'n'. " +
+			"rootrel = 7 entries with title '.' (dir a, hard link a/c to ../outside/f, ../wd-sibling/s, ../cwd/victim - inside when read from the link's directory, an existing outside file when read from the archive root -, the symlink a/c -> ../outside/f, reg a/c, reg a/x), sequences of 1..4 [thorough 1..5]. " +
+			"Title cases are also run for a working directory R/lone/x/wd whose ancestors lone and lone/x hold nothing else (relative and absolute-under-wd forms, empty wd). " +
 			"quick: every sequence of 1..2 entries over full and of 1..3 entries over core, each for the three wd states; 1..4 entries over rootlinks on an empty wd. " +
 			"thorough: 1..3 over full (empty wd), 1..2 over full and 1..3 over core (files, uplink), 1..4 over mini (three states), 1..5 over rootlinks and 1..5 over chain (empty wd). " +
 			"Besides the picture: when the sequence without its last entry was accepted on its own and, on the file system that run left behind, the directory that receives the last entry's name resolves (symbolic links followed by the harness's own resolver) outside wd, Push must fail; and an accepted archive must not leave a file from outside wd hard-linked inside wd. " +
